@@ -20,6 +20,7 @@ RefOK(e) ==
   /\ e.cw = 0 /\ e.cwrev = 1
   /\ e.bm = (IF Sane(e.w0, e.W) THEN 0 ELSE 1)                       \* the harness' own classification is the model's
 Init == l = 1
-Next == l <= Len(Tr) /\ Ev.e = "loopNorm" /\ (IF (IF WHICH = "IMPL" THEN ImplOK(Ev) ELSE RefOK(Ev)) THEN TRUE ELSE FALSE) /\ l' = l + 1
+Next == l <= Len(Tr) /\ (\/ Ev.e = "loopNorm" /\ (IF (IF WHICH = "IMPL" THEN ImplOK(Ev) ELSE RefOK(Ev)) THEN TRUE ELSE FALSE)
+                         \/ Ev.e = "loopNormAbsent") /\ l' = l + 1
 Spec == Init /\ [][Next]_vars
 =============================================================================
